@@ -293,4 +293,116 @@ theorem feed_line (hw : 1 ≤ w) (hcur : cur.length = w) (href : ref.length = w)
 
 end line
 
+/-! ### bits and octets -/
+
+theorem bitsOfByte_byteOfBits : ∀ b0 b1 b2 b3 b4 b5 b6 b7 : Bool,
+    bitsOfByte (byteOfBits [b0, b1, b2, b3, b4, b5, b6, b7]) = [b0, b1, b2, b3, b4, b5, b6, b7] := by
+  decide
+
+/-- Reading back the bits of packed octets (whole octets only). -/
+theorem unpack_pack : ∀ (n : Nat) (bits : List Bool), bits.length = 8 * n →
+    (packBits bits).flatMap bitsOfByte = bits := by
+  intro n
+  induction n with
+  | zero => intro bits h; have : bits = [] := List.eq_nil_of_length_eq_zero (by omega); subst this; rfl
+  | succ n ih =>
+    intro bits h
+    rcases bits with _ | ⟨b0, _ | ⟨b1, _ | ⟨b2, _ | ⟨b3, _ | ⟨b4, _ | ⟨b5, _ | ⟨b6, _ | ⟨b7, rest⟩⟩⟩⟩⟩⟩⟩⟩ <;>
+      simp only [List.length_cons, List.length_nil] at h <;> try omega
+    simp only [packBits, List.flatMap_cons, bitsOfByte_byteOfBits]
+    rw [ih rest (by omega)]
+    rfl
+
+theorem padTo8_length (bits : List Bool) : (T6.padTo8 bits).length % 8 = 0 := by
+  simp only [T6.padTo8, List.length_append, List.length_replicate]; omega
+
+/-! ### all rows -/
+
+section image
+variable {w : Nat} {al rv : Bool}
+
+theorem feed_rows (hw : 1 ≤ w) : ∀ (rows : List (List Bool)) (chs : List (List T6.Choice)) (ref : List Bool)
+    (buf : List UInt8) (st : St) (pos : Nat),
+    (∀ r ∈ rows, r.length = w) → ref.length = w → Ready w al rv ref buf st → (al = true → pos % 8 = 0) →
+    ∃ (st' : St) (ref' : List Bool), Ready w al rv ref' (buf ++ rows.flatMap (packLine rv)) st' ∧
+      (al = true → (pos + (T6.encodeRows al ref rows chs).length) % 8 = 0) ∧
+      ∀ rest : List Bool, feedFlat st pos 0 (T6.encodeRows al ref rows chs ++ rest) =
+        feedFlat st' (pos + (T6.encodeRows al ref rows chs).length) 0 rest := by
+  intro rows
+  induction rows with
+  | nil =>
+    intro chs ref buf st pos _ _ hr hp
+    exact ⟨st, ref, by simpa using hr, by simpa [T6.encodeRows] using hp, by intro rest; simp [T6.encodeRows]⟩
+  | cons cur rows ih =>
+    intro chs ref buf st pos hlen href hr hp
+    have hcur : cur.length = w := hlen cur (by simp)
+    obtain ⟨st1, hr1, hne, hf1⟩ := feed_line (al := al) (rv := rv) (buf := buf) hw hcur href (chs.headD []) hr
+    have hpos : 1 ≤ (T6.encodeLine ref cur (chs.headD [])).length := by
+      cases hc : T6.encodeLine ref cur (chs.headD []) with
+      | nil => exact absurd hc hne
+      | cons _ _ => simp
+    simp only [T6.encodeRows]
+    generalize T6.encodeLine ref cur (chs.headD []) = code at *
+    cases al with
+    | false =>
+      obtain ⟨st', ref', hr', _, hf'⟩ := ih chs.tail cur (buf ++ packLine rv cur) st1 (pos + code.length)
+        (fun r hr => hlen r (by simp [hr])) hcur hr1 (by intro h; cases h)
+      refine ⟨st', ref', ?_, ?_, ?_⟩
+      · simpa [List.flatMap_cons, List.append_assoc] using hr'
+      · intro h; cases h
+      · intro rest
+        simp only [Bool.false_eq_true, if_false, List.append_assoc, List.length_append]
+        rw [hf1]
+        have hs0 : skipAfter false (pos + code.length) = 0 := rfl
+        rw [hs0, hf', Nat.add_assoc]
+    | true =>
+      have hp0 := hp rfl
+      have hskip : skipAfter true (pos + code.length) = (List.replicate ((8 - code.length % 8) % 8) false).length := by
+        simp only [skipAfter, if_true, List.length_replicate]; omega
+      obtain ⟨st', ref', hr', hal', hf'⟩ := ih chs.tail cur (buf ++ packLine rv cur) st1
+        (pos + code.length + (List.replicate ((8 - code.length % 8) % 8) false).length)
+        (fun r hr => hlen r (by simp [hr])) hcur hr1 (by intro _; simp only [List.length_replicate]; omega)
+      refine ⟨st', ref', ?_, ?_, ?_⟩
+      · simpa [List.flatMap_cons, List.append_assoc] using hr'
+      · intro _
+        have := hal' rfl
+        simp only [if_true, T6.padTo8, List.length_append] at this ⊢
+        omega
+      · intro rest
+        simp only [if_true, T6.padTo8, List.append_assoc, List.length_append]
+        rw [hf1, hskip, feedFlat_skip, hf']
+        congr 1
+        omega
+
+/-- The whole bit stream of an image, on the flat semantics. -/
+theorem feed_image (hw : 1 ≤ w) (rows : List (List Bool)) (chs : List (List T6.Choice)) (eofb : Bool)
+    (hlen : ∀ r ∈ rows, r.length = w) :
+    ∃ st' : St, feedFlat (initSt w al rv) 0 0 (T6.encodeImageBits w rows chs al eofb) = .ok st' ∧
+      st'.buf = rows.flatMap (packLine rv) := by
+  have hr0 : Ready w al rv (List.replicate w true) [] (initSt w al rv) :=
+    ⟨rfl, rfl, rfl, rfl, rfl, rfl, rfl, rfl, rfl, rfl⟩
+  obtain ⟨st1, ref1, hr1, _, hf1⟩ := feed_rows (al := al) (rv := rv) hw rows chs (List.replicate w true) []
+    (initSt w al rv) 0 hlen (by simp) hr0 (by intro _; rfl)
+  simp only [T6.encodeImageBits, T6.padTo8, List.append_assoc]
+  rw [hf1]
+  simp only [List.nil_append] at hr1
+  cases eofb with
+  | true =>
+    simp only [if_true]
+    rw [feed_follow_leaf _ st1 _ _ (.mode .e) (by decide) (by rw [hr1.node]; exact mode_codes_ok.2.2.1)]
+    simp only [accept, hr1.acc, parseMode, afterAccept]
+    exact ⟨_, rfl, hr1.bf⟩
+  | false =>
+    simp only [Bool.false_eq_true, if_false, List.nil_append]
+    generalize hk : (8 - (T6.encodeRows al (List.replicate w true) rows chs ++ []).length % 8) % 8 = k
+    have hk8 : k < 8 := by omega
+    obtain ⟨a, c, hz⟩ := zeros_ok hk8
+    have := feed_follow_node (List.replicate k false) st1 (0 + (T6.encodeRows al (List.replicate w true) rows chs).length)
+      [] a c (by rw [hr1.node]; exact hz)
+    rw [List.append_nil] at this
+    rw [this]
+    exact ⟨_, rfl, hr1.bf⟩
+
+end image
+
 end PdfVerif.Ccitt
